@@ -37,5 +37,5 @@ MCRoutes == { <<"hset", "", "sym">>, <<"infix", "", "sym">>, <<"strkey", "", "st
 MCRoutesQuick == { <<"hset", "", "sym">>, <<"strkey", "", "str">>,
                    <<"arrow", "fb", "sym">>, <<"pfhset", "fp", "sym">> }
 AllDevs == {"decode-error-swallowed", "nonsymbol-key-unchecked", "nil-elem-slice-panics",
-            "slice-element-unchecked"}
+            "slice-element-unchecked", "derefset-adopts-definition"}
 =============================================================================
